@@ -269,9 +269,9 @@ theorem castLoop_spec (casts : List (PyType × String)) (hc : ∀ tf ∈ casts, 
 
 theorem truthy_of_ofPy (doc : PyVal) (d : DataV) (h : DataV.ofPy doc = .ok d) : PyVal.truthy doc = true := by
   cases doc with
-  | list xs => cases xs <;> simp [DataV.ofPy, PyVal.truthy] at h ⊢
-  | dict kvs => cases kvs <;> simp [DataV.ofPy, PyVal.truthy] at h ⊢
-  | _ => simp [DataV.ofPy] at h
+  | list xs => cases xs <;> simp [DataV.ofPy_list, PyVal.truthy] at h ⊢
+  | dict kvs => cases kvs <;> simp [DataV.ofPy_dict, PyVal.truthy] at h ⊢
+  | _ => cases h
 
 /-- the rest of `Rule.test` once the copy after this rule's casts is known -/
 def castTail (r : RuleM) (x : Except Exc PyVal) : Except Exc (RuleTestR × PyVal) :=
